@@ -47,7 +47,7 @@ def main():
     os.makedirs(out)
     rec = {"property": prop, "name": meta.get("name"), "ran": []}
     try:
-        r = sh(["git", "-C", "/repo", "worktree", "add", "-q", "--detach", wt, "HEAD"])
+        r = sh(["git", "-C", "/repo", "worktree", "add", "-q", "--detach", wt, os.environ.get("SEED_BASE", "HEAD")])
         if r.returncode != 0:
             print("worktree add failed", r.stderr)
             return 2
